@@ -14,7 +14,8 @@ TraceInit == sc \in 1..Len(Hist) /\ l = 1 /\ snapshot = [t |-> "none"] /\ held =
 IsEv(name) == l <= Len(Ev) /\ Ev[l].ev = name
 Consume == l' = l + 1 /\ UNCHANGED sc
 
-TConstruct == IsEv("construct") /\ snapshot' = Ev[l].cfg /\ held' = <<>> /\ Consume
+\* (the device list handed to the constructor is the caller's: it reads the same afterwards)
+TConstruct == IsEv("construct") /\ Ev[l].caller_after = Ev[l].caller_before /\ snapshot' = Ev[l].cfg /\ held' = <<>> /\ Consume
 \* caller-side mutations and buffer reuse change nothing the client or earlier results depend on
 TNoEffect == l <= Len(Ev) /\ Ev[l].ev \in {"mutate_caller", "mutate_returned", "scribble", "mutate_result"} /\ UNCHANGED <<snapshot, held>> /\ Consume
 TCall == /\ IsEv("call")
@@ -29,7 +30,8 @@ TRecheck == /\ IsEv("recheck")
             /\ Ev[l].ix \in 1..Len(held) /\ (Ev[l].mutated \/ Ev[l].now = held[Ev[l].ix])
             /\ UNCHANGED <<snapshot, held>> /\ Consume
 TClone == IsEv("clone") /\ Ev[l].clone = Ev[l].orig /\ Ev[l].orig_after = Ev[l].orig /\ UNCHANGED <<snapshot, held>> /\ Consume
-TDeviceList == IsEv("devicelist") /\ Ev[l].serials = [i \in 1..Len(snapshot.devices) |-> snapshot.devices[i].serial] /\ UNCHANGED <<snapshot, held>> /\ Consume
+RealDevices == SelectSeq(snapshot.devices, LAMBDA d : d.serial # <<0, 0>>)
+TDeviceList == IsEv("devicelist") /\ Ev[l].serials = [i \in 1..Len(RealDevices) |-> RealDevices[i].serial] /\ UNCHANGED <<snapshot, held>> /\ Consume
 Done == l = Len(Ev) + 1
 Accept == Done /\ UNCHANGED tv
 TraceNext == TConstruct \/ TNoEffect \/ TEventKept \/ TCall \/ TRecheck \/ TClone \/ TDeviceList \/ Accept
